@@ -254,6 +254,39 @@ def record_traces(w, n, maxlen, seed):
     return traces
 
 
+def suite_trace(wd):
+    """run the repository's test suite under harness/suite_plugin.py; returns the (run-length compressed) event list"""
+    import json
+    import os
+    import subprocess
+    import sys
+    if not os.path.isdir(os.path.join(common.REPO, "test")):
+        return None
+    out = os.path.join(wd, "suite_trace.json")
+    env = dict(os.environ, XFAB_SUITE_TRACE=out,
+               PYTHONPATH=os.pathsep.join([os.path.dirname(os.path.abspath(__file__)), common.REPO]))
+    p = subprocess.run([sys.executable, "-m", "pytest", "-q", "-p", "no:cacheprovider", "-p", "suite_plugin", "test"],
+                       cwd=common.REPO, env=env, stdout=subprocess.PIPE, stderr=subprocess.STDOUT, timeout=1200)
+    if not os.path.exists(out):
+        raise common.MachineryError("suite trace was not written: %s" % p.stdout.decode("utf-8", "replace")[-800:])
+    ev = json.load(open(out))
+    os.remove(out)
+    if not ev or ev[0].get("ev") != "init" or ev[0]["sw"] is not True:
+        raise common.MachineryError("suite trace does not start from the switched-on state")
+    # calls do not change the specification's state: between two assignments every distinct call event is kept once
+    comp, seen = [], set()
+    for e in ev[1:]:
+        if e["ev"] == "call":
+            k = (e["m"], e["f"], e["c"], e["out"], e["sw"])
+            if k in seen:
+                continue
+            seen.add(k)
+        else:
+            seen = set()
+        comp.append(e)
+    return comp
+
+
 def run(tier, seed):
     warnings.simplefilter("ignore")
     v = common.Verdict("C20", tier, seed)
@@ -291,6 +324,14 @@ def run(tier, seed):
             e = [q for q in t if str(q["out"]).startswith("other:")][0]
             v.violation("unexpected exception on a valid input / assignment: %s" % (e,), {"trace": t})
         good = [t for t in traces if t not in bad_out]
+        # the repository's own suite as a third source of traces (its assertions are weak, its paths are real)
+        suite = suite_trace(wd)
+        if suite is not None:
+            if any(str(e["out"]).startswith("other:") for e in suite):
+                e = [q for q in suite if str(q["out"]).startswith("other:")][0]
+                v.violation("while the repository's tests ran: unexpected exception on a valid input: %s" % (e,), {"event": e})
+                suite = [q for q in suite if not str(q["out"]).startswith("other:")]
+            good.append(suite)
         # binding demonstration, always on: two corrupted traces that MUST be rejected
         canary = [[{"ev": "assign", "v": "False", "out": "ok", "sw": True}],                       # corrupted field
                   [{"ev": "call", "m": "tools", "f": "u_to_rod", "c": "nonorth", "out": "unchecked", "sw": False}]]  # dropped assignment
@@ -327,6 +368,7 @@ def run(tier, seed):
         v.violations = list(seen.values())
     cov = {"states": states, "transitions": trans, "traces_validated_against_impl": nb + len(good),
            "behaviours_replayed": nb, "impl_traces_validated": len(good), "impl_traces_accepted": acc,
+           "suite_trace_events_after_compression": len(suite) if suite is not None else 0,
            "exhaustive": True,
            "rule": "R: every behaviour of Checks.tla with %d events (69 events: 10 assignment values, 59 guarded calls x input "
                    "classes) + simulated behaviours of 14 events; T: hypothesis histories of <= 30 events recorded from the real "
